@@ -171,7 +171,11 @@ def encDict2 {V : Type} (f : V → Sexp) (d : List (String × List (String × V)
   .list (d.map fun (k, inner) => .list [.atom k, .list (inner.map fun (k2, v) => .list [.atom k2, f v])])
 
 def encGraph (g : Graph) : Sexp :=
-  .list [.list (g.nodes.map fun n => .list [.atom n.id, strs n.cells, bool n.ports]),
-         .list (g.edges.map fun e => .list [.atom e.src, .atom e.dst, .atom e.label])]
+  .list [.list (.list [.atom "mother", strs [g.root], bool true] ::
+           g.nodes.map fun n => .list [.atom ("dec" ++ toString n.id), strs n.cells, bool n.ports]),
+         .list (g.edges.map fun e => .list [.atom (match e.src with
+             | none => "mother"
+             | some (k, i) => "dec" ++ toString k ++ ":p" ++ toString i),
+           .atom ("dec" ++ toString e.dst), .atom e.label])]
 
 end DL
